@@ -87,6 +87,20 @@ func checkC19(c *Ctx, w *World) {
 	}
 	imp, wit := cs.Implies(cs.Reach(nb), cs.Atom("innerOK"))
 	c.check(imp, "C19.errors", "framing only after a successful wrapped Marshal", p.ipos(nb), "the prefix is built only when the wrapped Marshal succeeded", "framing proceeds although the wrapped codec failed: "+wit)
+	// … and always then: no other condition (payload length, message type, …) lets an encoding leave without the field
+	all, wit2 := cs.Implies(cs.Atom("innerOK"), cs.Reach(nb))
+	c.check(all, "C19.frame", "every successful encoding is framed", p.ipos(nb), "the prefix is built whenever the wrapped Marshal succeeded — for every payload, including the empty one", "some successfully marshalled payloads are returned without the checksum field: "+wit2)
+	for i, r := range returnsOf(m) {
+		reach := cs.Reach(r)
+		if !cs.Satisfiable(reach) {
+			continue
+		}
+		e1, _ := cs.Implies(reach, cs.Not(cs.Atom("innerOK")))
+		e2, _ := cs.Implies(reach, cs.Atom("innerOK"))
+		if !e1 && !e2 {
+			c.fail("C19.frame", fmt.Sprintf("Marshal return#%d: classified", i+1), p.ipos(r), "this return is reachable both when the wrapped Marshal failed and when it succeeded: a successful encoding can leave through an error exit (without the checksum field)")
+		}
+	}
 
 	// ---- C19.tag
 	emptyStart := false
@@ -135,6 +149,9 @@ func checkC19(c *Ctx, w *World) {
 			errOK = true
 		} else if r.Results[1] == ssa.Value(ef) || r.Results[1] == ssa.Value(ev) || innerErr(r.Results[1]) {
 			errOK = true // reach ⇒ that error == nil (checked by the implication above)
+		}
+		if full, w3 := cs.Implies(cs.And(cs.Atom("innerOK"), cs.Atom("varintOK"), cs.Atom("fixedOK")), cs.Reach(r)); !full {
+			c.fail("C19.frame", fmt.Sprintf("Marshal return#%d: success is unconditional", i+1), p.ipos(r), "when all three steps succeeded the framed result is not always the one returned: "+w3)
 		}
 		c.check(good && errOK, "C19.frame", fmt.Sprintf("Marshal return#%d: success", i+1), p.ipos(r), "returns append(prefix bytes, payload...) — the 6-byte field followed by the unchanged wrapped encoding — with a nil error", "the success result is not prefix‖payload with a nil error")
 	}
